@@ -78,6 +78,87 @@ theorem C01_oserror_is_wrapped :
     handleError false .off true Gen.cConnectionResetError = .raise (exc Gen.cU3ProtocolError) := by decide
 
 
+/-! ### the invariant (DESIGN Appendix A)
+
+`InvL s L` (in `U3/Lemmas/Pool.lean`): queue ids distinct and disjoint from leased (`L`) and held ids;
+every connection with a socket is queued, leased or held; `queue.length ≤ maxsize`;
+`queue.length + leases + held ≥ maxsize`, with equality when `block`.  `Inv s = InvL s []`.
+
+Full statement (DESIGN Appendix E), NOT yet proved as a whole:
+  (statement) C01_inv_reachable (cfg) (ops : List Op) : Inv (run (init cfg) ops)
+Proved below: the invariant holds initially; it is preserved by every primitive step of the
+read / close family (`Steps`: `HTTPConnection.close`, closing a reader, log / socket updates, any
+update of a response that keeps `_connection`), and the queue/lease counting core of the one-attempt
+summary lemma: a checked-out connection (`InvL s (c :: L)`) that is put back (`_put_conn(conn)`, clean
+exit) or discarded (`conn.close(); _put_conn(None)`, unclean exit) restores the invariant with the
+lease gone — including the `Full` / closed-pool / `FullPoolError` branches.  Missing for the full
+theorem: `getConn` turns `Inv s` into `InvL s' [c]`; attaching the connection to the response
+(`InvL s (c :: L)` → `InvL s' L`, `filterMap_modify_perm` is the list lemma for it); `releaseConn`
+(held → queue); and the induction over the attempt script in `request` that strings them together
+(each composite of the read family has to be exhibited as `Steps`).  The correspondence run
+compares the queue content after every operation with the implementation on every history.
+-/
+
+theorem C01_inv_init (n : Nat) (block proxy : Bool) (hn : 0 < n) : Inv (init n block proxy) :=
+  init_inv n block proxy hn
+
+theorem C01_inv_primitive_steps {s s' : State} {L : List Nat} (st : Steps [] s s') (h : InvL s L) : InvL s' L :=
+  steps_inv (by simp) st h
+
+theorem C01_inv_conn_close {s : State} {L : List Nat} (c : Nat) (h : InvL s L) : InvL (connClose s c) L :=
+  connClose_inv c h
+
+/-- clean exit: the leased connection goes back, the lease is over, `Inv` holds again -/
+theorem C01_putback_restores_inv {s : State} {c : Nat} (h : InvL s [c]) : Inv (putConn s (some c)).1 :=
+  putConn_lease_inv h
+
+/-- unclean exit (any exception, handled or not, incl. an interrupt): the connection is closed and a
+`None` placeholder takes its slot -/
+theorem C01_discard_restores_inv {s : State} {c : Nat} (h : InvL s [c]) : Inv (discard s (some c)).1 :=
+  discard_lease_inv h
+
+example : InvL { (init 1 true) with queue := [], conns := [{}] } [0] := by
+  refine ⟨by decide, ?_, ?_, ?_, ?_, ?_, ?_, ?_⟩ <;> simp [init, owned, queued, held]
+  intro c cn h; cases c <;> simp at h; subst h; simp
+
+/-
+Full statement: (statement) C01_quiescent_slots (h : Reachable cfg s) (every returned response has been
+read, released or closed) : s.queue.length = cfg.maxsize.   FALSE on this tree as stated: see
+`C01_close_keeps_slot_witness`, `C01_preload_unreleased_witness` (known findings).  Proved: whenever
+the invariant holds and no response still holds a connection (which is what read-to-the-end,
+`release_conn()`, `drain_conn()` and a failed read establish — not `close()`), the pool offers
+exactly `maxsize` slots.
+-/
+theorem C01_quiescent_slots_partial {s : State} (h : Inv s) (hc : s.closed = false) (hq : held s = []) :
+    s.queue.length = s.maxsize := by
+  have h1 := h.slots hc
+  have h2 := h.len
+  simp [hq] at h1
+  omega
+
+/-- quiescent ⇒ every connection that still has a socket is idle in the queue -/
+theorem C01_no_leak_partial {s : State} (h : Inv s) (hq : held s = []) :
+    ∀ c cn, s.conns[c]? = some cn → cn.sock ≠ none → some c ∈ s.queue := by
+  intro c cn hc hs
+  have := h.live c cn hc hs
+  simp [owned, hq, queued] at this
+  exact this
+
+/-- `block=True`: with `maxsize` responses holding their connections the queue is empty and the next
+checkout is `EmptyPoolError` -/
+theorem C01_n_plus_one_blocks {s : State} (h : Inv s) (hc : s.closed = false) (hb : s.block = true)
+    (hn : (held s).length = s.maxsize) :
+    (getConn s).2 = .error (exc Gen.cU3EmptyPoolError) ∧ (getConn s).1 = s := by
+  have h1 := h.slotsB hc hb
+  have hq : s.queue = [] := by
+    cases hq : s.queue with
+    | nil => rfl
+    | cons a t => rw [hq] at h1; simp at h1; omega
+  unfold getConn
+  simp [hc, hq, hb]
+
+example : Inv (init 2 true) ∧ (init 2 true).closed = false := ⟨init_inv 2 true false (by decide), rfl⟩
+
 /-! ### the candidate of DESIGN §7, on the model: `response.close()` never gives the slot back -/
 
 def okAttempt : Attempt :=
